@@ -120,8 +120,8 @@ def run(ctx):
         campaign.judge(ctx, camp, vs, conformance=None, clauses=("C18.trunc",))
         cvs = campaign.validate_cam(camp)
         campaign.judge_cam(ctx, camp, cvs, ["C18."])
-        if not quick:
-            # the repository's own tests, recorded under the hook and replayed through the pushdown machine
+        if True:
+            # the repository's own tests (core, compiler, gallery formats on their sample files), recorded under the hook and replayed through the pushdown machine
             from .. import repotests
             repotests.run(ctx, ["C18."])
         for cid, m in camp.sh.meta.items():
